@@ -160,9 +160,9 @@ type AtomInfo struct {
 
 // Shared is the state shared by all frames of one evaluation.
 type Shared struct {
-	P       *engine.Prog
-	Atoms   map[string]*AtomInfo
-	fresh   int
+	P        *engine.Prog
+	Atoms    map[string]*AtomInfo
+	fresh    int
 	SampleID bool // an integer id was replaced by the sample value 1
 }
 
@@ -170,16 +170,16 @@ func NewShared(p *engine.Prog) *Shared { return &Shared{P: p, Atoms: map[string]
 
 // Frame evaluates values of one function with optional parameter bindings.
 type Frame struct {
-	S      *Shared
-	Fn     *ssa.Function
-	Str    map[*ssa.Parameter][]SymStr   // bound string parameters
-	Strs   map[*ssa.Parameter][][]SymStr // bound []string parameters (elements)
-	Ints   map[*ssa.Parameter]Poly
-	Caller *Frame
+	S        *Shared
+	Fn       *ssa.Function
+	Str      map[*ssa.Parameter][]SymStr   // bound string parameters
+	Strs     map[*ssa.Parameter][][]SymStr // bound []string parameters (elements)
+	Ints     map[*ssa.Parameter]Poly
+	Caller   *Frame
 	CallSite ssa.CallInstruction
-	depth  int
-	phiBusy map[*ssa.Phi]string
-	lenMemo map[ssa.Value]Poly
+	depth    int
+	phiBusy  map[*ssa.Phi]string
+	lenMemo  map[ssa.Value]Poly
 }
 
 func (s *Shared) NewFrame(fn *ssa.Function) *Frame {
